@@ -191,8 +191,10 @@ void h_cpu_init_begin(void)
  * pre-state loom: not initialized (cpus_array == NULL), at most two CPUs L0, L1
  * forming a partial bijection index <-> phyid; metadata: at most three pairs. */
 int w_ln;                         /* CPUs already in the loom: 0..2 */
-int w_lidx[2], w_lphy[2];
-int w_has, w_n, w_isobj[3], w_idx[3], w_phy[3];
+int v_lidx[2], v_lphy[2];
+int w_has, w_n, v_isobj[3], v_idx[3], v_phy[3];
+/* scalar copies for the native replay driver (the runner passes integer scalars only) */
+int w_lidx0, w_lphy0, w_lidx1, w_lphy1, w_isobj0, w_idx0, w_phy0, w_isobj1, w_idx1, w_phy1, w_isobj2, w_idx2, w_phy2;
 struct cpu *g_l0, *g_l1;
 unsigned long g_old_ncpus;
 
@@ -200,17 +202,17 @@ unsigned long g_old_ncpus;
 #define L_PRESENT(j) (w_ln > (j))
 #define M_PRESENT(k) (w_n > (k))
 /* pair k of the metadata is compatible with everything in the loom and with the other pairs */
-#define M_COMPAT_L(k, j) (!M_PRESENT(k) || !L_PRESENT(j) || COMPAT(w_idx[k], w_phy[k], w_lidx[j], w_lphy[j]))
-#define M_COMPAT_M(k, j) (!M_PRESENT(k) || !M_PRESENT(j) || COMPAT(w_idx[k], w_phy[k], w_idx[j], w_phy[j]))
-#define M_VALID(k) (!M_PRESENT(k) || (w_isobj[k] && w_idx[k] >= 0 && w_phy[k] >= 0))
+#define M_COMPAT_L(k, j) (!M_PRESENT(k) || !L_PRESENT(j) || COMPAT(v_idx[k], v_phy[k], v_lidx[j], v_lphy[j]))
+#define M_COMPAT_M(k, j) (!M_PRESENT(k) || !M_PRESENT(j) || COMPAT(v_idx[k], v_phy[k], v_idx[j], v_phy[j]))
+#define M_VALID(k) (!M_PRESENT(k) || (v_isobj[k] && v_idx[k] >= 0 && v_phy[k] >= 0))
 /* the union of the loom's CPUs and the metadata pairs is a partial bijection of valid pairs */
 #define UNION_LEGAL (w_n > 0 && M_VALID(0) && M_VALID(1) && M_VALID(2) && \
 	M_COMPAT_L(0, 0) && M_COMPAT_L(0, 1) && M_COMPAT_L(1, 0) && M_COMPAT_L(1, 1) && M_COMPAT_L(2, 0) && M_COMPAT_L(2, 1) && \
 	M_COMPAT_M(0, 1) && M_COMPAT_M(0, 2) && M_COMPAT_M(1, 2))
 /* pair k defines a CPU the loom did not have and no earlier pair defined */
-#define M_IN_L(k) ((L_PRESENT(0) && w_lphy[0] == w_phy[k]) || (L_PRESENT(1) && w_lphy[1] == w_phy[k]))
+#define M_IN_L(k) ((L_PRESENT(0) && v_lphy[0] == v_phy[k]) || (L_PRESENT(1) && v_lphy[1] == v_phy[k]))
 #define M_NEW(k) (M_PRESENT(k) && !M_IN_L(k) && \
-	!((k) > 0 && w_phy[0] == w_phy[k]) && !((k) > 1 && w_phy[1] == w_phy[k]))
+	!((k) > 0 && v_phy[0] == v_phy[k]) && !((k) > 1 && v_phy[1] == v_phy[k]))
 #define N_NEW ((M_NEW(0) ? 1 : 0) + (M_NEW(1) ? 1 : 0) + (M_NEW(2) ? 1 : 0))
 
 /* post-state: some node of the chain (<= 5 nodes) is exactly the pair (idx, phy) */
@@ -243,7 +245,7 @@ static struct loom *c15_build_loom2(void)
 		g_l0 = malloc(sizeof(struct cpu));
 		__CPROVER_assume(g_l0 != NULL && g_l0->phyid >= 0 && g_l0->index >= 0);
 		g_l0->hh.key = (void *) &g_l0->phyid; g_l0->hh.next = NULL; g_l0->is_virtual = 0;
-		w_lidx[0] = g_l0->index; w_lphy[0] = g_l0->phyid;
+		v_lidx[0] = g_l0->index; v_lphy[0] = g_l0->phyid;
 	}
 	if (w_ln == 2) {
 		g_l1 = malloc(sizeof(struct cpu));
@@ -252,7 +254,7 @@ static struct loom *c15_build_loom2(void)
 		__CPROVER_assume(g_l1->phyid != g_l0->phyid && g_l1->index != g_l0->index);
 		g_l1->hh.key = (void *) &g_l1->phyid; g_l1->hh.next = NULL; g_l1->is_virtual = 0;
 		g_l0->hh.next = g_l1;
-		w_lidx[1] = g_l1->index; w_lphy[1] = g_l1->phyid;
+		v_lidx[1] = g_l1->index; v_lphy[1] = g_l1->phyid;
 	}
 	loom->cpus = g_l0;
 	loom->ncpus = (size_t) w_ln;
@@ -265,9 +267,12 @@ static struct loom *c15_build_loom2(void)
 	__CPROVER_assume(g_ncpu <= 3);
 	for (int k = 0; k < 3; k++) {
 		g_isobj[k] = nondet_bool(); g_idx[k] = nondet_int(); g_phy[k] = nondet_int();
-		w_isobj[k] = g_isobj[k]; w_idx[k] = g_idx[k]; w_phy[k] = g_phy[k];
+		v_isobj[k] = g_isobj[k]; v_idx[k] = g_idx[k]; v_phy[k] = g_phy[k];
 	}
 	w_has = g_has_cpus; w_n = (int) g_ncpu;
+	w_lidx0 = w_ln >= 1 ? v_lidx[0] : 0; w_lphy0 = w_ln >= 1 ? v_lphy[0] : 0; w_lidx1 = w_ln >= 2 ? v_lidx[1] : 0; w_lphy1 = w_ln >= 2 ? v_lphy[1] : 0;
+	w_isobj0 = v_isobj[0]; w_idx0 = v_idx[0]; w_phy0 = v_phy[0]; w_isobj1 = v_isobj[1]; w_idx1 = v_idx[1]; w_phy1 = v_phy[1];
+	w_isobj2 = v_isobj[2]; w_idx2 = v_idx[2]; w_phy2 = v_phy[2];
 	return loom;
 }
 
@@ -276,21 +281,21 @@ static struct loom *c15_build_loom2(void)
 #define C15_REACH_ANY(r) \
 	if (r == 0 && !w_has) REACH("stream without CPU list accepted"); \
 	if (r != 0 && w_has && w_n == 0) REACH("empty CPU array refused"); \
-	if (r != 0 && w_has && w_n == 1 && w_isobj[0] && w_idx[0] < 0) REACH("negative index refused"); \
-	if (r != 0 && w_has && w_n == 1 && w_isobj[0] && w_idx[0] >= 0 && w_phy[0] == -1) REACH("phyid -1 (virtual CPU) refused"); \
+	if (r != 0 && w_has && w_n == 1 && v_isobj[0] && v_idx[0] < 0) REACH("negative index refused"); \
+	if (r != 0 && w_has && w_n == 1 && v_isobj[0] && v_idx[0] >= 0 && v_phy[0] == -1) REACH("phyid -1 (virtual CPU) refused"); \
 	if (r != 0 && w_has && UNION_LEGAL) REACH("refused by calloc failure only");
 #if !defined(C15_LN) || C15_LN == 0
 #define C15_REACH_L0(r) \
 	if (r == 0 && w_has && w_ln == 0 && w_n == 3 && N_NEW == 3) REACH("three CPUs into an empty loom"); \
-	if (r != 0 && w_has && w_n == 2 && w_ln == 0 && w_isobj[0] && w_isobj[1] && w_idx[0] >= 0 && w_idx[0] == w_idx[1] && w_phy[0] >= 0 && w_phy[1] >= 0) REACH("same index twice in one stream refused");
+	if (r != 0 && w_has && w_n == 2 && w_ln == 0 && v_isobj[0] && v_isobj[1] && v_idx[0] >= 0 && v_idx[0] == v_idx[1] && v_phy[0] >= 0 && v_phy[1] >= 0) REACH("same index twice in one stream refused");
 #else
 #define C15_REACH_L0(r)
 #endif
 #if !defined(C15_LN) || C15_LN == 1
 #define C15_REACH_L1(r) \
-	if (r == 0 && w_has && w_n == 2 && w_idx[0] > w_idx[1] && w_ln == 1 && N_NEW == 2) REACH("non-ascending index order accepted (D4 input)"); \
-	if (r != 0 && w_has && w_n == 1 && w_ln == 1 && w_isobj[0] && w_idx[0] >= 0 && w_phy[0] == w_lphy[0]) REACH("same phyid, different index refused"); \
-	if (r != 0 && w_has && w_n == 1 && w_ln == 1 && w_isobj[0] && w_idx[0] == w_lidx[0] && w_phy[0] >= 0 && w_phy[0] != w_lphy[0]) REACH("same index, different phyid refused (loom CPU)");
+	if (r == 0 && w_has && w_n == 2 && v_idx[0] > v_idx[1] && w_ln == 1 && N_NEW == 2) REACH("non-ascending index order accepted (D4 input)"); \
+	if (r != 0 && w_has && w_n == 1 && w_ln == 1 && v_isobj[0] && v_idx[0] >= 0 && v_phy[0] == v_lphy[0]) REACH("same phyid, different index refused"); \
+	if (r != 0 && w_has && w_n == 1 && w_ln == 1 && v_isobj[0] && v_idx[0] == v_lidx[0] && v_phy[0] >= 0 && v_phy[0] != v_lphy[0]) REACH("same index, different phyid refused (loom CPU)");
 #else
 #define C15_REACH_L1(r)
 #endif
@@ -320,9 +325,9 @@ static struct loom *c15_build_loom2(void)
 	VASSERT(r == 0 || g_err > old_err, "load_cpus refusal comes with a diagnostic"); \
 	VASSERT(w_has || (n0 == g_l0 && loom->ncpus == g_old_ncpus && g_hadd_n == old_hadd), "a stream without CPU list changes nothing"); \
 	if (r == 0 && w_has) { \
-		VASSERT(!M_PRESENT(0) || IN_NODES(w_idx[0], w_phy[0]), "accepted: pair 0 is in the loom with exactly that pairing"); \
-		VASSERT(!M_PRESENT(1) || IN_NODES(w_idx[1], w_phy[1]), "accepted: pair 1 is in the loom with exactly that pairing"); \
-		VASSERT(!M_PRESENT(2) || IN_NODES(w_idx[2], w_phy[2]), "accepted: pair 2 is in the loom with exactly that pairing"); \
+		VASSERT(!M_PRESENT(0) || IN_NODES(v_idx[0], v_phy[0]), "accepted: pair 0 is in the loom with exactly that pairing"); \
+		VASSERT(!M_PRESENT(1) || IN_NODES(v_idx[1], v_phy[1]), "accepted: pair 1 is in the loom with exactly that pairing"); \
+		VASSERT(!M_PRESENT(2) || IN_NODES(v_idx[2], v_phy[2]), "accepted: pair 2 is in the loom with exactly that pairing"); \
 		VASSERT((w_ln < 1 || n0 == g_l0) && (w_ln < 2 || n1 == g_l1), "accepted: CPUs the loom had stay first, in order"); \
 		VASSERT(loom->ncpus == g_old_ncpus + (unsigned long) N_NEW && loom->ncpus == (size_t) NODES_LEN && \
 			g_hadd_n == old_hadd + (unsigned) N_NEW, "accepted: exactly the new physical ids were added (duplicates ignored)"); \
@@ -330,8 +335,8 @@ static struct loom *c15_build_loom2(void)
 	if (r == 0) { \
 		VASSERT(NODES_BIJ, "accepted: the loom's CPUs are again a partial bijection index <-> phyid"); \
 	} \
-	VASSERT(w_ln < 1 || (g_l0->index == w_lidx[0] && g_l0->phyid == w_lphy[0] && !g_l0->is_virtual), "old CPU 0 unchanged"); \
-	VASSERT(w_ln < 2 || (g_l1->index == w_lidx[1] && g_l1->phyid == w_lphy[1] && !g_l1->is_virtual), "old CPU 1 unchanged"); \
+	VASSERT(w_ln < 1 || (g_l0->index == v_lidx[0] && g_l0->phyid == v_lphy[0] && !g_l0->is_virtual), "old CPU 0 unchanged"); \
+	VASSERT(w_ln < 2 || (g_l1->index == v_lidx[1] && g_l1->phyid == v_lphy[1] && !g_l1->is_virtual), "old CPU 1 unchanged"); \
 	VASSERT(loom->is_init == 0 && loom->cpus_array == NULL && loom->nprocs == old_nprocs && loom->procs == old_procs && \
 		loom->vcpu.index == -1 && loom->vcpu.phyid == -1, "loom otherwise unchanged, still not initialized"); \
 	C15_REACH_ANY(r) C15_REACH_L0(r) C15_REACH_L1(r) C15_REACH_L2(r) \
